@@ -30,5 +30,9 @@ func checkC09(p *Prog, r *Report) {
 	r.Rule("R5", "the per-device listing filters on the peer identity (SKI of the client feature's device), the per-feature listing on the server feature address")
 	listingRule(p, r, "R5", bindMgr)
 	hasBindingRule(p, r, "R6")
+	r.Rule("R11", "a delete is tied to the sending peer: the pre-check of RemoveBinding asks about the address of the feature resolved on the local device and the address of the feature resolved on the requesting device, not about address data copied from the request")
+	deletePrecheckRule(p, r, "R11")
+	r.Rule("R10", "the binding list is never used as the backing array of another list")
+	noStrayCompaction(p, ls, r, "R10", map[string]bool{"BindingManager": true})
 	r.Assumes("reflect.DeepEqual and the address getters are not interpreted: the retain predicates are decided over which components are compared and how the comparisons are combined")
 }
